@@ -53,10 +53,15 @@ def run(chk):
         chk.add_violation(v)
     # 5. large operands, math/big only
     lg = vplib.vh("nt", ["large", "--tier", T, "--seed", str(chk.seed)], timeout=3000)
-    chk.add_replay(lg, "large_operand_relations_run")
-    chk.extra["large_operand_relations"] = {"evaluations": lg.get("evaluations", 0), "decided_by": "math/big in the harness, not TLC",
-                                            "per_helper": {k[6:]: n for k, n in lg.get("counts", {}).items() if k.startswith("large:")}}
-
+    for v in lg.get("violations", []):  # a mismatch with math/big is a violation all the same
+        chk.add_violation(v)
+    # not added to evaluations / traces_validated_against_impl: these relations were not decided by TLC
+    chk.extra["large_operand_relations"] = {"evaluations": lg.get("evaluations", 0), "violations": len(lg.get("violations", [])),
+                                            "decided_by": "math/big in the harness, not TLC (weaker binding)",
+                                            "per_helper": {k[6:]: n for k, n in lg.get("counts", {}).items() if k.startswith("large:")},
+                                            "notes": lg.get("notes")}
+    if lg.get("evaluations", 0) < 1000:
+        raise vplib.Machinery("large-operand run evaluated only %d relations" % lg.get("evaluations", 0))
 
 def record_and_validate(chk, T, seed):
     """nt record -> one trace file -> NumTheoryTrace; returns the violations (rejected records)."""
